@@ -44,5 +44,11 @@ M6 shard.Set takes RLock instead of Lock               -> red: C15_facts_ok brok
 M8 fast path returns first = (Wait != nil)             -> red: facts + early-wake, gos-f-not-once, gos-results-differ, hist-not-linearizable
 M9 GetOrSet `else if first || wait == nil`             -> facts unreadable (compound condition) -> thorough correspondence; red:
                                                            gos-f-not-once, gos-results-differ, seq-gos
+S1 seeded by the coordinator: LazySet looks up under RLock, then writes under Lock without re-checking -> facts unreadable
+   (compound condition) -> thorough correspondence; red with concrete histories: map-operation-panicked (double close:
+   hist 4 0:1:3:get:0:0;2:2:10:aog:0:301:panic;3:4:7:aog:0:401:401,t;...) and hist-not-linearizable (103 oracle failures);
+   the harness recovers panicking map operations inside its goroutines and records them as observations
+M10 Get fast path: RUnlock moved above the lookup (extractor only) -> getRows lock/access order differs
+   (["RLock","RUnlock","access"]), C15_facts_ok and C15_accesses_under_lock's premise break
 H1 harmless: Set rewritten with early returns, `cur, found :=`, close before store, if/else-if -> green, facts regenerated identical
 """
